@@ -45,6 +45,7 @@ def gen_cfg(rng, deterministic=False, averaging_p=0.3, noise_p=0.25, box_p=0.35,
         args["rhoend"] = float(0.3 * margin * 10.0 ** rng.integers(-6, -1))
         args["maxfun"] = min(args["maxfun"], 40)
         up.pop("init.random_initial_directions", None)
+        up.pop("init.run_in_parallel", None)
         up.pop("init.random_directions_make_orthogonal", None)
     elif v < box_p + proj_p + reg_p:
         cfg["reg"] = dict(type=gen.pick(rng, ["l1", "l2"]), lam=float(10.0 ** rng.uniform(-2, 0)))
